@@ -19,12 +19,14 @@ pub struct C10 {
     told: HashMap<Id, u16>,
     /// last header incarnation seen per identity epoch (monotonicity across calls)
     last_sent: Option<(Id, u16)>,
+    /// every address this instance has ever used (its old identities may still be gossiped as Down)
+    own_addrs: Vec<u16>,
     pub check_hook: bool,
 }
 
 impl Default for C10 {
     fn default() -> Self {
-        C10 { inc: 0, defunct: false, told: HashMap::new(), last_sent: None, check_hook: true }
+        C10 { inc: 0, defunct: false, told: HashMap::new(), last_sent: None, own_addrs: vec![], check_hook: true }
     }
 }
 
@@ -100,7 +102,11 @@ impl C10 {
         if rec.res.is_panic() {
             return Ok(());
         }
-        let own_addr = rec.pre.id.addr;
+        for a in [rec.pre.id.addr, crate::mon::chain::start_identity(rec).addr, rec.post.id.addr] {
+            if !self.own_addrs.contains(&a) {
+                self.own_addrs.push(a);
+            }
+        }
 
         // defunct instances never answer / probe / relay
         let mut defunct_now = self.defunct;
@@ -214,7 +220,9 @@ impl C10 {
                                     _ => None,
                                 });
                                 if let Some(p) = first {
-                                    let has = p.members.as_ref().is_some_and(|ms| ms.iter().any(|m| m.id() == old && m.state() == State::Down));
+                                    // (a later update about another identity of the own address, presented in the same
+                                    // call, legitimately supersedes the entry: one update per address)
+                                    let has = p.members.as_ref().is_some_and(|ms| ms.iter().any(|m| m.id().addr == old.addr && m.state() == State::Down));
                                     let room = rec.cfg_pre.mps.saturating_sub(p.members_end) >= want.len() && p.members.is_some();
                                     if room {
                                         ensure!(has, "C10/old-identity-not-gossiped-down", "first datagram as {new:?} does not carry Down({old:?}) although {} bytes were free", rec.cfg_pre.mps - p.members_end);
@@ -261,7 +269,7 @@ impl C10 {
             let Ev::Send { .. } = ev else { continue };
             let Some(Ok(p)) = &ch.parsed[i] else { continue };
             for m in p.members.as_deref().unwrap_or(&[]) {
-                if m.id().addr == own_addr {
+                if self.own_addrs.contains(&m.id().addr) && (m.id().addr == ch.at[i].addr || m.state() == State::Down) {
                     // own (previous) identities: only ever as Down
                     if *m.id() != ch.at[i] {
                         ensure!(m.state() == State::Down, "C10/own-old-identity-not-down", "gossips own address identity {m:?}");
